@@ -9,19 +9,19 @@ def run(ctx):
     q = ctx.quick
     # ---- design level: PageRank sums to one when dangling mass is redistributed; the disjoint-union lemma the
     #      replicated (parallel-path) runs rely on; CDLP labels stay inside weak components
-    ctx.tlc_gen("MC_Algo", A.gen(3, 2, inv=DESIGN_INV, emit=""), "design-n3", workers=4, timeout=3000)
-    ctx.tlc_gen("MC_Algo", A.gen(2, 3 if q else 4, inv=DESIGN_INV + " UnionLemma", emit=""), "design-union-n2", workers=4, timeout=3000)
+    ctx.tlc_gen("MC_Algo", A.gen("{1, 2, 3}", 2, w="{1}", inv=DESIGN_INV + " UnionLemma", emit=""), "design-n123", workers=4, timeout=3000)
     if not q:
-        ctx.tlc_gen("MC_Algo", A.gen(3, 3, inv=DESIGN_INV + " UnionLemma", emit=""), "design-union-n3", workers=4, timeout=3000)
+        ctx.tlc_gen("MC_Algo", A.gen("{2, 3}", 3, w="{1}", inv=DESIGN_INV + " UnionLemma", emit=""), "design-union-e3", workers=4, timeout=3000)
+        ctx.tlc_gen("MC_Algo", A.gen("{4}", 2, w="{1}", inv=DESIGN_INV, emit=""), "design-n4", workers=4, timeout=3000)
     # self-test: without dangling redistribution the scores do NOT sum to one (TLC must find the witness)
-    ctx.tlc_gen("MC_Algo", A.gen(2, 1, inv="PRSumsToOne", emit="", nored="TRUE"), "no-redistribution-selftest", expect_violation=True, workers=2)
+    ctx.tlc_gen("MC_Algo", A.gen("{2}", 1, inv="PRSumsToOne", emit="", nored="TRUE"), "no-redistribution-selftest", expect_violation=True, workers=2)
 
     if q:
-        fams = [(1, 3, "{1}", 1), (2, 3, "{1}", 1), (3, 3, "{1}", 1), (4, 2, "{1}", 1)]
-        pfam = [(2, 2, "{1}", 2), (3, 2, "{1}", 2)]
+        fams = [("{1, 2, 3}", 3, "{1}", 1), ("{4}", 2, "{1}", 1)]
+        pfam = [("{2, 3}", 2, "{1}", 2)]
     else:
-        fams = [(1, 4, "{1}", 1), (2, 4, "{1}", 1), (3, 4, "{1}", 1), (4, 3, "{1}", 1)]
-        pfam = [(2, 3, "{1}", 2), (3, 3, "{1}", 2), (4, 2, "{1}", 2)]
+        fams = [("{1, 2, 3}", 4, "{1}", 1), ("{4}", 3, "{1}", 1)]
+        pfam = [("{2, 3}", 3, "{1}", 2), ("{4}", 2, "{1}", 2)]
     ctx.assume(A.ASSUME_GRAPH,
                "weights play no role in PageRank / CDLP: the graphs are enumerated with one weight",
                "PageRank is compared with the exact rational iteration at 10^-6 per score (dampings 1/2, 3/4, 1/4; <=3 iterations; "
@@ -40,8 +40,8 @@ def run(ctx):
     sp = ctx.write_scripts("proj", scripts)
     tr = ctx.run_harness("algo", sp, name="proj", args=[ONLY, "proj=full", "rep=0"], timeout=7200)
     ctx.validate("Algo_Trace", A.TRACE, tr, name="proj", corrupt=A.corrupt, timeout=7200)
-    walks = ctx.tlc_gen("MC_Algo", A.gen(5, 7, w="{1}", canon="FALSE", emit="", inv="SimEmit"), "mid5", simulate=(40 if q else 400, 13), workers=2)
-    walks += ctx.tlc_gen("MC_Algo", A.gen(6, 9, w="{1}", canon="FALSE", emit="", inv="SimEmit"), "mid6", simulate=(10 if q else 150, 16), workers=2)
+    walks = ctx.tlc_gen("MC_Algo", A.gen("{5}", 7, w="{1}", canon="FALSE", emit="", inv="SimEmit"), "mid5", simulate=(40 if q else 400, 13), workers=2)
+    walks += ctx.tlc_gen("MC_Algo", A.gen("{6}", 9, w="{1}", canon="FALSE", emit="", inv="SimEmit"), "mid6", simulate=(10 if q else 150, 16), workers=2)
     sp = ctx.write_scripts("mid", walks)
     tr = ctx.run_harness("algo", sp, name="mid", args=[ONLY, "proj=basic", "rep=1", "repalgos=pr,cdlp", "prmaxit=2"], timeout=7200)
     ctx.validate("Algo_Trace", A.TRACE, tr, name="mid", corrupt=A.corrupt, timeout=7200)
